@@ -167,6 +167,10 @@ class Threads(EngineBase):
                 ops.append({"op": rng.choice(["exit", "exit", "exit_exc"])})
             elif r < 0.62:
                 ops.append({"op": "get", "m": rng.choice(ALL_GETTERS)})
+                if rng.random() < 0.06:
+                    ops[-1] = rng.choice([
+                        {"op": "get", "m": "environ", "esrch": "environ"},
+                        {"op": "get", "m": "io_counters", "esrch": "io"}])
             elif r < 0.74:
                 k_ = rng.random()
                 if k_ < 0.55:
@@ -288,7 +292,15 @@ class Threads(EngineBase):
                                 pass
                     out = ("value", None)
                 elif kind == "get":
-                    out = ("value", call_getter(p, op["m"]))
+                    if op.get("esrch"):
+                        # this one record answers ESRCH although the process
+                        # lives (kernel threads' environ, a task in exit):
+                        # the getter may fail, the block's records stay
+                        k.deny = {"/proc/%d/%s" % (T, op["esrch"]): 3}
+                    try:
+                        out = ("value", call_getter(p, op["m"]))
+                    finally:
+                        k.deny = {}
                 else:
                     if op.get("deny"):
                         k.deny = {"/proc/%d/%s" % (T, op["deny"]): 13}
@@ -405,6 +417,17 @@ class Threads(EngineBase):
             if out[0] == "exc" and got[1] not in ("NSP", "ZP", "AD"):
                 V("C16.exception", [got[1]], name, "%s() raised %r" % (
                     name, out[1]))
+                continue
+            if op.get("esrch"):
+                if stack:
+                    for w, v in reads.items():
+                        block["first"].setdefault(w, v)
+                    block.setdefault("allreads", []).extend(allreads)
+                    for w, n in opens.items():
+                        block["opens"][w] = block["opens"].get(w, 0) + n
+                    probes["getter_failed_esrch_in_block"] = probes.get(
+                        "getter_failed_esrch_in_block", 0) + 1
+                just_exited = False
                 continue
             if stack:
                 for w, v in reads.items():
